@@ -158,7 +158,9 @@ func TestC11(t *testing.T) {
 			var l ipld.Link
 			var sz uint64
 			var err error
-			withWidth(2, func() { l, sz, err = builder.BuildUnixFSFile(&zeroReader{left: 1<<32 + 1}, "size-1048576", st.LinkSystem(false)) })
+			withWidth(2, func() {
+				l, sz, err = builder.BuildUnixFSFile(&zeroReader{left: 1<<32 + 1}, "size-1048576", st.LinkSystem(false))
+			})
 			if err != nil {
 				c.Violation("C11|build-error", "%v", err)
 				return
@@ -187,6 +189,29 @@ func TestC11(t *testing.T) {
 					c.Sig(fmt.Sprintf("%s|f%d|n%s|shared=%v", n.Kind, n.Fanout, sizeClass(len(n.Children)), shared), links >= 1)
 				}
 			}
+		})
+	}
+	// entry lists in which a name occurs more than once (plain directory builder): whatever the builder
+	// writes, the size it returns must be that of what it wrote
+	for i := 0; i < r.Pick(8, 60); i++ {
+		i := i
+		r.Case(fmt.Sprintf("dupnames/%d", i), map[string]any{"round": i}, func(c *mon.Case) {
+			rr := c.Rand()
+			st := store.New()
+			var entries []dagpb.PBLink
+			for k := 0; k < 3+rr.Intn(12); k++ {
+				data := gen.Content(rr, "rand", 1+rr.Intn(200))
+				cc := st.PutBlock(1, cid.Raw, data)
+				name := fmt.Sprintf("n%d", rr.Intn(5))
+				e, _ := builder.BuildUnixFSDirectoryEntry(name, int64(len(data)), cidlink.Link{Cid: cc})
+				entries = append(entries, e)
+			}
+			l, sz, err := builder.BuildUnixFSDirectory(entries, st.LinkSystem(false))
+			if err != nil {
+				return // refusing duplicates would be fine too
+			}
+			checkSizes(c, st, linkCid(l), sz, "plain directory with repeated entry names")
+			c.Sig("dupnames", true)
 		})
 	}
 	// big sharded directories and symlinks
